@@ -448,7 +448,7 @@ class Circuit:
         See :py:attr:`substitute()` for more detail.
         """
         for n in list(self.nodes):
-            if n.kind in tlib.cells:
+            if n.circuit is not None and n.kind in tlib.cells:  # an earlier clean-up may have removed n
                 self.substitute(n, tlib.cells[n.kind][0])
 
     def copy(self):
